@@ -38,6 +38,11 @@ pub enum Op {
     IterMutAdd(i64),
     /// add `k` to every cell through `IntoIterator for &mut`
     IntoIterMutAdd(i64),
+    /// `dst.clone_from(&current)` into another matrix built with `rows` rows, `extra` spare capacity and
+    /// `base` in every cell; continue on `dst`
+    CloneInto { rows: usize, extra: usize, base: i64 },
+    /// `current.clone_from(&src)` where `src` has `rows` rows of `base + 3*row + column`
+    CloneFrom { rows: usize, base: i64 },
 }
 
 #[derive(Clone, Debug, Serialize, Deserialize)]
@@ -102,6 +107,8 @@ fn op_strategy() -> BoxedStrategy<Op> {
         2 => Just(Op::CloneContinue),
         1 => (-3i64..=3).prop_map(Op::IterMutAdd),
         1 => (-3i64..=3).prop_map(Op::IntoIterMutAdd),
+        1 => (rows.clone(), 0usize..=40, val.clone()).prop_map(|(rows, extra, base)| Op::CloneInto { rows, extra, base }),
+        1 => (rows.clone(), val.clone()).prop_map(|(rows, base)| Op::CloneFrom { rows, base }),
     ]
     .boxed()
 }
@@ -287,6 +294,29 @@ fn run<T: Elem, C: ArrayLength + PartialEq>(case: &Case) -> Verdict {
                 m = cl;
                 name = "clone";
             }
+            Op::CloneInto { rows, extra, base } => {
+                let mut dst = DenseMatrix::<T, C>::with_capacity(*rows, *rows + *extra);
+                dst.fill(T::from_i64(*base));
+                dst.clone_from(&m);
+                if dst != m {
+                    return Verdict::Fail(Failure::new("dense:clone-eq", format!("after dst.clone_from(&src) dst != src (dst had {} rows, src has {})", rows, model.len())));
+                }
+                if let Some(f) = verify(i + 1, "clone_from (source)", &m, &model, &mut info) {
+                    return Verdict::Fail(f);
+                }
+                m = dst;
+                name = "clone_from (destination)";
+            }
+            Op::CloneFrom { rows, base } => {
+                let src_rows: Vec<Vec<T>> = (0..*rows).map(|i| (0..c).map(|j| T::from_i64(base.wrapping_add((3 * i + j) as i64))).collect()).collect();
+                let src = DenseMatrix::<T, C>::from_rows(src_rows.iter());
+                m.clone_from(&src);
+                if m != src {
+                    return Verdict::Fail(Failure::new("dense:clone-eq", format!("after dst.clone_from(&src) dst != src (dst had {} rows, src has {})", model.len(), rows)));
+                }
+                model = src_rows;
+                name = "clone_from";
+            }
             Op::IterMutAdd(k) => {
                 let n = m.iter_mut().len();
                 if n != model.len() {
@@ -365,6 +395,7 @@ fn run<T: Elem, C: ArrayLength + PartialEq>(case: &Case) -> Verdict {
     info.class_if(grew_after_write, "grow-after-write");
     info.class_if(shrank, "shrink");
     info.class_if(case.ops.iter().any(|o| matches!(o, Op::CloneContinue)), "clone");
+    info.class_if(case.ops.iter().any(|o| matches!(o, Op::CloneInto { .. } | Op::CloneFrom { .. })), "clone_from");
     info.class_if(case.ops.iter().any(|o| matches!(o, Op::Fill(_))), "fill");
     Verdict::Pass(info)
 }
@@ -389,7 +420,7 @@ impl Sub for Model {
         "model"
     }
     fn rule(&self) -> &'static str {
-        "element type {u8,u32,f32,i64} x column count {1,5,7,16,21,32,43} x history of up to 40 ops (new, with_capacity, resize grow/shrink/0, reserve, cell writes via both Index forms, row writes, fill, from_rows, clone-and-continue, iter_mut, into_iter_mut.rev); after EVERY op rows/columns/all cells/row pointer alignment/stride/iterators (forward, reverse, mixed double-ended, len) are compared with a Vec<Vec<T>> model, then equality against a matrix with equal cells but a different padding history; non-trivial = >= 5 ops incl. a growing resize after writes and a shrink"
+        "element type {u8,u32,f32,i64} x column count {1,5,7,16,21,32,43} x history of up to 40 ops (new, with_capacity, resize grow/shrink/0, reserve, cell writes via both Index forms, row writes, fill, from_rows, clone-and-continue, clone_from in both directions between matrices of different row counts and capacities, iter_mut, into_iter_mut.rev); after EVERY op rows/columns/all cells/row pointer alignment/stride/iterators (forward, reverse, mixed double-ended, len) are compared with a Vec<Vec<T>> model, then equality against a matrix with equal cells but a different padding history; non-trivial = >= 5 ops incl. a growing resize after writes and a shrink"
     }
     fn cases(&self, tier: Tier) -> u64 {
         tier.pick(28 * 3_000, 28 * 60_000)
